@@ -9,7 +9,7 @@
 
   Each function has two programs: `…Baseline` (the code as it stands) and `…Fixed` (after
   docs/candidate-fixes.patch).  `prog` := the fixed ones; the theorems are about `prog`.
-  The shapes are tied to the source by Generated/Sync.lean (Tie/Sync.lean, Tie/SyncBaseline.lean).
+  The shapes are tied to the source by Generated/Sync.lean (Tie/Sync.lean); the baseline shapes by the frozen facts of Proofs/ConcBaselineFacts.lean.
 -/
 namespace LispModel.Conc
 
